@@ -23,11 +23,15 @@ def release_phase(ctx, info, coverage):
     coverage["release_model_impl_disagreements"] = len(r["mism"])
     coverage["release_monitor_failures"] = len(r["monf"])
     coverage["evaluations"] = coverage.get("evaluations", 0) + len(r["cases"])
-    for ci, si in r["monf"][:2]:
+    for ci, si, msg in r["pyf"][:2]:
+        ctx.violation({"property": "C13", "what": "release path: " + msg, "mode": "release", "step": si, "case": r["cases"][ci],
+                       "implementation_trace": r["impl"][ci][max(0, si - 2):si + 1]})
+    for ci, si in ([] if r["pyf"] else r["monf"][:2]):
         ctx.violation({"property": "C13", "what": "release path: a datagram at the gNB is not a well-formed G-PDU carrying a packet that was "
                        "buffered earlier and not yet emitted, or the server faulted / a queue exceeds its capacity (step %d)" % si,
                        "mode": "release", "case": r["cases"][ci], "implementation_trace": r["impl"][ci]})
-    if not r["monf"] and r["mism"]:
+    coverage["release_monitor_failures"] = len(r["monf"]) + len(r["pyf"])
+    if not r["monf"] and not r["pyf"] and r["mism"]:
         ci, si = r["mism"][0]
         ctx.violation({"property": "C13", "correspondence": "model/Release.v step <> implementation at step %d (datagrams per gNB, "
                        "downlink data reports or queue contents differ)" % si, "mode": "release", "case": r["cases"][ci],
